@@ -21,6 +21,7 @@ class Interp(ExprMixin, CallMixin, StmtMixin):
         self.check_index = contract.safety
         self.check_div = False
         self.float_div = contract.options.get('float_div', 'real')
+        self.mul_mode = contract.options.get('mul', 'real')
         self.slices_allocate = False
         self.module_consts = {}
         self.empty_list_types = {}
@@ -44,6 +45,7 @@ class FunctionResult:
         self.assumed = []
         self.n_loops = 0
         self.partial = None
+        self.region = None
 
 
 def resolve_anchor(fn, anchor):
@@ -109,6 +111,20 @@ def verify_function(reg, frontend, con, prop=None):
     is_static = frontend.is_staticmethod(fn)
     is_cm = frontend.is_classmethod(fn)
 
+    body_fn = fn
+    region = con.options.get("region")
+    if region:
+        # verify only one statement of a function whose remainder is outside the subset (stated in the evidence)
+        hit = resolve_anchor(fn, "at:" + region)
+        if hit is None:
+            res.status, res.reason = "out-of-date", "region %r not found" % region
+            return res
+        target_line = hit[1]
+        stmt = next(n for n in ast.walk(fn) if isinstance(n, ast.stmt) and getattr(n, "lineno", None) == target_line
+                    and region in ast.unparse(n).split("\n")[0])
+        body_fn = ast.FunctionDef(name=fn.name, args=fn.args, body=[stmt], decorator_list=fn.decorator_list, lineno=fn.lineno)
+        res.region = "only the statement starting at line %d (%s) is verified; the rest of %s is outside the subset" % (
+            target_line, region, con.qualname)
     stack = [[]]
     try:
         while stack:
@@ -138,7 +154,7 @@ def verify_function(reg, frontend, con, prop=None):
             for r in con.requires:
                 st.assume(it.truthy(it.spec_text(r, st), st))
             st.entry = Snapshot(st.env, st.heap)
-            run_path(it, fn, st, con)
+            run_path(it, body_fn, st, con)
             for i in range(len(prefix), len(ctx.taken)):
                 c, nopt = ctx.taken[i]
                 for alt in range(1, nopt):
